@@ -921,7 +921,9 @@ def run_check(chk: Check, prop: str) -> None:
     chk.cov["strata"] = dict(sorted(Counter(d["id"][0] for d in docs).items()))
     rep = Counter(x for t in traces for x in t["_notes"].get("repeated_defs", []))
     if rep:
-        chk.note_drift(f"{sum(rep.values())} method(s) are emitted twice (textually identical) into one client class - an operation two of whose tags fold to the same class, e.g. {sorted(rep)[0]}")
+        # not a disagreement with any model and no clause depends on it: an operation two of whose tags fold to the same
+        # class is written twice (textually identical) into that class; recorded in the evidence only
+        chk.cov["methods_emitted_twice_identically"] = {"count": sum(rep.values()), "example": sorted(rep)[0]}
     if stats["unmatched_requests"]:
         chk.note_drift(f"{sum(stats['unmatched_requests'].values())} request(s) matched no operation of their document, e.g. {next(iter(stats['unmatched_requests']))}")
     if chk.cov.get("undetermined_pairs"):
